@@ -602,8 +602,11 @@ func (this *Writer) Close() error {
 			}
 
 			// Write end block of size 0
-			this.obs.WriteBits(0, 5) // write length-3 (5 bits max)
-			this.obs.WriteBits(0, 3)
+			if err := this.writeEndBlock(); err != nil {
+				atomic.StoreInt32(&this.closing, 0)
+				return err
+			}
+
 			atomic.StoreInt32(&this.finalized, 1)
 		}
 	}
@@ -627,6 +630,27 @@ func (this *Writer) Close() error {
 		this.buffers[i] = blockBuffer{Buf: make([]byte, 0)}
 	}
 
+	return nil
+}
+
+// writeEndBlock writes the empty block that terminates the stream. The
+// bitstream panics if it has to flush and the sink fails: report an error and
+// leave the writer in error state (the bitstream cannot be resumed).
+func (this *Writer) writeEndBlock() (err error) {
+	defer func() {
+		if r := recover(); r != nil {
+			atomic.StoreInt32(&this.blockID, _CANCEL_TASKS_ID)
+
+			if e, ok := r.(error); ok {
+				err = &IOError{msg: e.Error(), code: kanzi.ERR_WRITE_FILE}
+			} else {
+				err = &IOError{msg: fmt.Sprint(r), code: kanzi.ERR_WRITE_FILE}
+			}
+		}
+	}()
+
+	this.obs.WriteBits(0, 5) // write length-3 (5 bits max)
+	this.obs.WriteBits(0, 3)
 	return nil
 }
 
